@@ -1,7 +1,7 @@
 (* C10 -- property theorems only. *)
 From Coq Require Import QArith List Arith Bool.
 Import ListNotations.
-From PD Require Import Model.Overlap Model.Grid Proofs.Overlap Proofs.C10.
+From PD Require Import Model.Overlap Model.Grid Proofs.Overlap Proofs.C10 Proofs.GridSym.
 Local Open Scope Q_scope.
 
 (* D i j : surface distance between original droplets i and j (any table), rad : radii,
@@ -44,6 +44,13 @@ Theorem C10_pairwise_is_distance : forall dist rad i j, (i < j)%nat ->
   pairwise dist rad false i j = dist i j /\ pairwise dist rad true i j = dist i j - (rad i + rad j).
 Proof. exact pairwise_upper. Qed.
 Print Assumptions C10_pairwise_is_distance.
+
+(* the grid's (periodic) squared distance and the Euclidean one are symmetric, so the matrix entry computed from
+   (p_i, p_j) for i < j is also the distance from p_j to p_i *)
+Theorem C10_metric_symmetric : forall g, (forall a, In a g -> aper a = false \/ 0 < asize a) ->
+  forall p q, dist2 g p q == dist2 g q p /\ edist2 p q == edist2 q p.
+Proof. intros g Hg p q. exact (conj (dist2_sym g Hg p q) (edist2_sym p q)). Qed.
+Print Assumptions C10_metric_symmetric.
 
 Theorem C10_overlaps_iff_negative : forall d r1 r2 : Q, d < r1 + r2 <-> d - (r1 + r2) < 0.
 Proof. exact overlaps_iff_negative. Qed.
